@@ -43,7 +43,17 @@ type promotionContext struct {
 // children try to promote it again (idempotent — children would
 // classify it as having no remaining uses).
 func promoteBlocks(ctx *promotionContext, blk *[]ir.Statement) {
-	promoteWithinBlock(ctx, blk)
+	promoteBlocksIn(ctx, blk, false)
+}
+
+// promoteBlocksIn is promoteBlocks with the knowledge whether blk sits inside
+// a loop. Within-block promotion reads "no store yet in this block" as "the
+// variable still has its initial value"; a block inside a loop runs again
+// after its own stores (or those of a sibling block) have executed, so
+// only variables that are stored in the block before they are loaded are
+// promoted there.
+func promoteBlocksIn(ctx *promotionContext, blk *[]ir.Statement, inLoop bool) {
+	promoteWithinBlock(ctx, blk, inLoop)
 	// Recurse into nested blocks. We rebuild nested-block slices
 	// when promotion deletes statements; afterward we write the
 	// new slice back into the parent statement so subsequent
@@ -52,13 +62,13 @@ func promoteBlocks(ctx *promotionContext, blk *[]ir.Statement) {
 		switch sk := (*blk)[i].Kind.(type) {
 		case ir.StmtBlock:
 			b := []ir.Statement(sk.Block)
-			promoteBlocks(ctx, &b)
+			promoteBlocksIn(ctx, &b, inLoop)
 			(*blk)[i].Kind = ir.StmtBlock{Block: ir.Block(b)}
 		case ir.StmtIf:
 			a := []ir.Statement(sk.Accept)
 			r := []ir.Statement(sk.Reject)
-			promoteBlocks(ctx, &a)
-			promoteBlocks(ctx, &r)
+			promoteBlocksIn(ctx, &a, inLoop)
+			promoteBlocksIn(ctx, &r, inLoop)
 			(*blk)[i].Kind = ir.StmtIf{
 				Condition: sk.Condition,
 				Accept:    ir.Block(a),
@@ -67,8 +77,8 @@ func promoteBlocks(ctx *promotionContext, blk *[]ir.Statement) {
 		case ir.StmtLoop:
 			b := []ir.Statement(sk.Body)
 			c := []ir.Statement(sk.Continuing)
-			promoteBlocks(ctx, &b)
-			promoteBlocks(ctx, &c)
+			promoteBlocksIn(ctx, &b, true)
+			promoteBlocksIn(ctx, &c, true)
 			(*blk)[i].Kind = ir.StmtLoop{
 				Body:       ir.Block(b),
 				Continuing: ir.Block(c),
@@ -79,7 +89,7 @@ func promoteBlocks(ctx *promotionContext, blk *[]ir.Statement) {
 			copy(cases, sk.Cases)
 			for ci := range cases {
 				cb := []ir.Statement(cases[ci].Body)
-				promoteBlocks(ctx, &cb)
+				promoteBlocksIn(ctx, &cb, inLoop)
 				cases[ci].Body = ir.Block(cb)
 			}
 			(*blk)[i].Kind = ir.StmtSwitch{Selector: sk.Selector, Cases: cases}
@@ -89,7 +99,7 @@ func promoteBlocks(ctx *promotionContext, blk *[]ir.Statement) {
 
 // promoteWithinBlock identifies and promotes variables whose entire
 // set of uses lives inside blk. Returns silently if no candidates.
-func promoteWithinBlock(ctx *promotionContext, blk *[]ir.Statement) {
+func promoteWithinBlock(ctx *promotionContext, blk *[]ir.Statement, inLoop bool) {
 	// Step 1: count uses per variable inside this block only.
 	localStores, localLoads := countLocalUses(ctx, blk)
 	if len(localStores) == 0 && len(localLoads) == 0 {
@@ -99,6 +109,17 @@ func promoteWithinBlock(ctx *promotionContext, blk *[]ir.Statement) {
 	// Step 2: select candidates whose global use counts match the
 	// in-block counts (all stores and all loads contained here).
 	candidates := selectBlockCandidates(ctx, localStores, localLoads)
+	if inLoop {
+		// The block runs once per iteration: a load that no store of this
+		// block precedes sees the value of the previous iteration, not the
+		// variable's initial value.
+		storedFirst := storedBeforeLoaded(ctx, blk)
+		for v := range candidates {
+			if !storedFirst[v] {
+				delete(candidates, v)
+			}
+		}
+	}
 	if len(candidates) == 0 {
 		return
 	}
@@ -106,6 +127,29 @@ func promoteWithinBlock(ctx *promotionContext, blk *[]ir.Statement) {
 	// Step 3: walk the block in textual order, rewriting loads and
 	// marking stores for deletion.
 	rewriteBlock(ctx, blk, candidates)
+}
+
+// storedBeforeLoaded returns the variables whose first access among the
+// statements of blk is a store.
+func storedBeforeLoaded(ctx *promotionContext, blk *[]ir.Statement) map[uint32]bool {
+	first := make(map[uint32]bool) // variable -> its first access is a store
+	seen := make(map[uint32]bool)
+	for i := range *blk {
+		switch sk := (*blk)[i].Kind.(type) {
+		case ir.StmtStore:
+			if v, ok := ctx.localPtrs[sk.Pointer]; ok && !seen[v] {
+				seen[v] = true
+				first[v] = true
+			}
+		case ir.StmtEmit:
+			for h := sk.Range.Start; h < sk.Range.End; h++ {
+				if v, ok := loadHandleVar(ctx, h); ok && !seen[v] {
+					seen[v] = true
+				}
+			}
+		}
+	}
+	return first
 }
 
 // countLocalUses tallies, per variable, how many StmtStore
